@@ -1,0 +1,44 @@
+package db
+
+import (
+	"github.com/syndtr/goleveldb/leveldb"
+	"github.com/syndtr/goleveldb/leveldb/iterator"
+	"github.com/syndtr/goleveldb/leveldb/opt"
+	"github.com/syndtr/goleveldb/leveldb/util"
+)
+
+// levelDBBatchWriter is a LevelDBLike which reads from the underlying leveldb and collects all writes in a batch.
+// Nothing reaches the database until Write is called, which applies all collected writes atomically.
+type levelDBBatchWriter struct {
+	ldb   *leveldb.DB
+	batch *leveldb.Batch
+}
+
+func newLevelDBBatchWriter(ldb *leveldb.DB) *levelDBBatchWriter {
+	return &levelDBBatchWriter{
+		ldb:   ldb,
+		batch: new(leveldb.Batch),
+	}
+}
+
+func (bw *levelDBBatchWriter) Get(key []byte, ro *opt.ReadOptions) ([]byte, error) {
+	return bw.ldb.Get(key, ro)
+}
+func (bw *levelDBBatchWriter) Has(key []byte, ro *opt.ReadOptions) (bool, error) {
+	return bw.ldb.Has(key, ro)
+}
+func (bw *levelDBBatchWriter) NewIterator(slice *util.Range, ro *opt.ReadOptions) iterator.Iterator {
+	return bw.ldb.NewIterator(slice, ro)
+}
+func (bw *levelDBBatchWriter) Put(key []byte, value []byte, _ *opt.WriteOptions) error {
+	bw.batch.Put(key, value)
+	return nil
+}
+func (bw *levelDBBatchWriter) Delete(key []byte, _ *opt.WriteOptions) error {
+	bw.batch.Delete(key)
+	return nil
+}
+func (bw *levelDBBatchWriter) Write() error {
+	verifWrite("batch:write")
+	return bw.ldb.Write(bw.batch, nil)
+}
